@@ -87,7 +87,9 @@ def wide_cases(rng, n):
         nb = need if size == NONE else size
         buf = [rng.randrange(256) for _ in range(rng.choice([0, 1, nb, nb + 3, rng.randint(0, 40)]))]
         off = rng.choice([0, 0, 1, len(buf), len(buf) + 2, rng.randint(0, max(0, len(buf) - nb) + 1)])
-        cases.append({"k": "wpack", "fmt": fmt, "vals": [rval(w) for w in fmt], "size": size, "rev": rng.random() < 0.5,
+        c = rng.random()                        # output extremes: every field all ones / zero -> bytes ff.. / 00..
+        vals = [to_bits((1 << w) - 1) for w in fmt] if c < 0.08 else ([[] for w in fmt] if c < 0.12 else [rval(w) for w in fmt])
+        cases.append({"k": "wpack", "fmt": fmt, "vals": vals, "size": size, "rev": rng.random() < 0.5,
                       "buf": buf, "off": off})
     for _ in range(n):
         fmt = rfmt()
@@ -95,6 +97,8 @@ def wide_cases(rng, n):
         size = NONE if rng.random() < 0.6 else need + rng.choice([0, 1, 3])
         nb = need if size == NONE else size
         b = [rng.choice([0, 255, rng.randrange(256), rng.randrange(256)]) for _ in range(nb + rng.choice([0, 0, 1, 5]))]
+        c = rng.random()                        # output extremes: every field all ones / zero
+        b = [255] * len(b) if c < 0.12 else ([0] * len(b) if c < 0.18 else b)
         cases.append({"k": "wunpack", "fmt": fmt, "b": b, "size": size, "rev": rng.random() < 0.5})
     for _ in range(n):
         nbits = rng.choice([0, 1, 7, 8, 9, 31, 32, 33, 63, 64, 65, rng.randint(0, 100)])
@@ -103,22 +107,31 @@ def wide_cases(rng, n):
             mag = rng.choice([(1 << nbits) - 1, 1 << (nbits - 1), (1 << nbits)])
         cases.append({"k": "wbytify", "mag": to_bits(mag), "neg": mag > 0 and rng.random() < 0.5,
                       "size": rng.choice([0, 1, 2, 4, 8, 9, rng.randint(0, 16)]), "rev": rng.random() < 0.5, "strict": rng.random() < 0.5})
-    for _ in range(n):
-        cases.append({"k": "wunbytify", "b": [rng.choice([0, 255, rng.randrange(256)]) for _ in range(rng.randint(0, 20))],
-                      "rev": rng.random() < 0.5})
+    for j in range(n):
+        b = [rng.choice([0, 255, rng.randrange(256)]) for _ in range(rng.randint(0, 20))]
+        if j < 42:                              # output extremes: 2^(8k) - 1, 0, and values around 2^53 and 2^64
+            b = [255 if j % 2 else 0] * (j // 2)
+        elif j < 60:
+            b = [[0x20, 0, 0, 0, 0, 0, 0], [0x1f] + [255] * 6, [0x20] + [0] * 5 + [1], [255] * 7 + [252, 0], [255] * 8 + [254],
+                 [1] + [0] * 8][j % 6]
+        cases.append({"k": "wunbytify", "b": b, "rev": rng.random() < 0.5})
     for _ in range(n):
         nb = rng.choice([1, 2, 8, 16, 31, 32, 33, 64, rng.randint(1, 80)])
         x = rng.choice([rng.getrandbits(nb), (1 << nb) - 1, 1 << (nb - 1), (1 << (nb - 1)) - 1, 0])
         cases.append({"k": "wsign", "x": to_bits(x, nb)})
     for _ in range(n):
-        cases.append({"k": "whexify", "b": [rng.randrange(256) for _ in range(rng.randint(3, 40))]})
+        c = rng.random()
+        ln = rng.randint(3, 40)
+        cases.append({"k": "whexify", "b": [255] * ln if c < 0.06 else ([0] * ln if c < 0.12 else [rng.randrange(256) for _ in range(ln)])})
     for _ in range(n):
         cases.append({"k": "wunhexify", "h": [rng.choice("0123456789abcdefABCDEF") for _ in range(rng.randint(5, 81))]})
     for _ in range(n):
         nb = rng.randint(0, 80)
-        cases.append({"k": "wbinize", "bits": to_bits(rng.getrandbits(nb) if nb else 0), "size": nb + rng.choice([0, 0, 1, 8])})
+        v = (1 << nb) - 1 if rng.random() < 0.15 else (rng.getrandbits(nb) if nb else 0)
+        cases.append({"k": "wbinize", "bits": to_bits(v), "size": nb + rng.choice([0, 0, 1, 8])})
     for _ in range(n):
-        cases.append({"k": "wunbinize", "u": [rng.choice("01") for _ in range(rng.randint(13, 80))]})
+        c = rng.random()
+        cases.append({"k": "wunbinize", "u": [("1" if c < 0.1 else "0" if c < 0.15 else rng.choice("01")) for _ in range(rng.randint(13, 80))]})
     return cases
 
 
